@@ -184,8 +184,10 @@ CompactCases ==
 \* public keys: every prefix byte x lengths x coordinate classes
 PkLens == { 0, 1, 32, 33, 34, 64, 65, 66 }
 PkCases ==
-       { << "pk", pre, len, xc, yc >> : pre \in 0..255, len \in PkLens,
+       { << "pk", pre, len, xc, yc >> : pre \in 0..255, len \in { 64, 65, 66 },
                                          xc \in (IF Thorough THEN 1..10 ELSE { 2, 5, 7, 8 }), yc \in (IF Thorough THEN 1..6 ELSE { 1, 2, 3 }) }
+  \cup { << "pk", pre, len, xc, 1 >> : pre \in 0..255, len \in { 32, 33, 34 }, xc \in (IF Thorough THEN 1..10 ELSE { 2, 5, 7, 8 }) }   \* (no y octets in these)
+  \cup { << "pk", pre, len, 2, 1 >> : pre \in 0..255, len \in { 0, 1 } }
   \cup { << "pk", pre, len, xc, yc >> : pre \in { 2, 3, 4, 6, 7 }, len \in { 33, 65 }, xc \in 1..10, yc \in 1..6 }
   \cup { << "pkser", k, comp, cap >> : k \in 1..3, comp \in {0, 1}, cap \in { 0, 1, 32, 33, 34, 64, 65, 66, 100 } }
   \cup { << "xo", j >> : j \in 0..40 }
